@@ -748,7 +748,7 @@ func CanonicalIsomorphAllocated(n, m int, neighbours [][]int, op *CanonicalOrder
 				//Can we step there?
 				//Heuristic 2
 				if count > 0 && ints.HasPrefix(firstLeafPath, path[:len(path)-1]) {
-					if firstLeafOrbits[choiceElement] >= 0 {
+					if hasEarlierOrbitMate(firstLeafOrbits, op.order[choicePosition-j:choicePosition], choiceElement, space) {
 						skipDeage = true
 						continue jLoop
 					}
@@ -758,7 +758,7 @@ func CanonicalIsomorphAllocated(n, m int, neighbours [][]int, op *CanonicalOrder
 				//Do the same for the currentBest
 				//Heuristic 2
 				if count > 0 && ints.HasPrefix(currentBestPath, path[:len(path)-1]) {
-					if currentBestOrbits[choiceElement] >= 0 {
+					if hasEarlierOrbitMate(currentBestOrbits, op.order[choicePosition-j:choicePosition], choiceElement, space) {
 						skipDeage = true
 						continue jLoop
 					}
@@ -792,6 +792,18 @@ func CanonicalIsomorphAllocated(n, m int, neighbours [][]int, op *CanonicalOrder
 }
 
 //Below are various helper functions.
+
+//hasEarlierOrbitMate returns true if v is in the same orbit as one of the elements of earlier.
+//The children of a node of the search tree are tried from the last position of the cell to the first so an element may be skipped precisely when an equivalent element is still to come. Using the root of the disjoint set as the representative is not sound here: firstLeafOrbits and currentBestOrbits have different roots, and currentBestOrbits is reset whenever a better leaf is found, so every element of an orbit could be skipped.
+func hasEarlierOrbitMate(orbits disjoint.Set, earlier []int, v int, buf []int) bool {
+	r := orbits.FindBuffered(v, buf)
+	for _, u := range earlier {
+		if orbits.FindBuffered(u, buf) == r {
+			return true
+		}
+	}
+	return false
+}
 
 //zeroOut sets all the entries of a to be 0.
 //Note that this will be optimised to a memclr call.
